@@ -58,6 +58,9 @@ static PARK: Mutex<(Option<&'static str>, bool, bool)> = Mutex::new((None, false
 /// park only at the n-th time the armed point is reached (1 = first)
 static PARK_SKIP: AtomicU64 = AtomicU64::new(0);
 static PARKCV: Condvar = Condvar::new();
+/// park EVERY thread that reaches a point until `limit` of them are there and the driver releases them together
+static MULTI: Mutex<(Option<&'static str>, usize, usize, bool)> = Mutex::new((None, 0, 0, false)); // (point, limit, parked, released)
+static MULTICV: Condvar = Condvar::new();
 static DELAY_US: AtomicU64 = AtomicU64::new(0);
 static DELAY_RNG: AtomicU64 = AtomicU64::new(0x9E3779B9);
 
@@ -239,6 +242,16 @@ fn install_hooks() {
                 g.push((t, name));
             }
         }
+        {
+            let mut g = MULTI.lock().unwrap();
+            if g.0 == Some(name) && g.2 < g.1 && !g.3 {
+                g.2 += 1;
+                MULTICV.notify_all();
+                while !g.3 {
+                    g = MULTICV.wait(g).unwrap();
+                }
+            }
+        }
         // park the thread that reaches the armed point
         {
             let mut g = PARK.lock().unwrap();
@@ -291,6 +304,23 @@ fn disarm() {
     g.2 = true;
     g.0 = None;
     PARKCV.notify_all();
+    drop(g);
+    multi_release();
+}
+fn multi_arm(point: &'static str, limit: usize) {
+    *MULTI.lock().unwrap() = (Some(point), limit, 0, false);
+}
+fn multi_wait(limit: usize, timeout: Duration) -> bool {
+    let g = MULTI.lock().unwrap();
+    let (g, r) = MULTICV.wait_timeout_while(g, timeout, |g| g.2 < limit).unwrap();
+    drop(g);
+    !r.timed_out()
+}
+fn multi_release() {
+    let mut g = MULTI.lock().unwrap();
+    g.3 = true;
+    g.0 = None;
+    MULTICV.notify_all();
 }
 
 // ---------------------------------------------------------------------------------------
@@ -331,6 +361,15 @@ fn bg_threads() -> usize {
 }
 fn all_threads() -> usize {
     fs::read_dir("/proc/self/task").map(|r| r.count()).unwrap_or(0)
+}
+/// threads of the driver itself (main, watchdog), measured before the first store is opened
+static BASE_THREADS: AtomicU64 = AtomicU64::new(0);
+/// No worker of an earlier store may still be around (its hook points would land in the next scenario's log).
+/// A worker that was spawned but has not run yet still carries its parent's name, so besides the named workers
+/// the total number of threads has to be back at the driver's own.
+fn quiesce() {
+    let base = BASE_THREADS.load(Ordering::SeqCst) as usize;
+    wait_until(|| bg_threads() == 0 && (base == 0 || all_threads() <= base), Duration::from_secs(5));
 }
 fn fds_into(dir: &Path) -> usize {
     let mut n = 0;
@@ -403,7 +442,7 @@ fn close_mode(inputs: &[Value], si: usize, sn: usize, out: &mut TraceOut, pend: 
         let dir = sc.path().to_path_buf();
         // no worker of an earlier scenario (or of its reopen probe) may still be around: its hook points
         // would land in this scenario's log
-        wait_until(|| bg_threads() == 0, Duration::from_secs(5));
+        quiesce();
         reset_clock();
         disarm();
         let mut ev = json!({"ev": "close", "kind": kind, "input": inp});
@@ -413,7 +452,7 @@ fn close_mode(inputs: &[Value], si: usize, sn: usize, out: &mut TraceOut, pend: 
                 let cfgv = inp.get("config").cloned().unwrap_or(json!({}));
                 // no worker of an earlier scenario may still be around: "the worker is gone" below must
                 // mean THIS store's worker (an operation it had in flight at the drop may finish first)
-                wait_until(|| bg_threads() == 0, Duration::from_secs(5));
+                quiesce();
                 let base_bg = bg_threads();
                 shim::start(&dir, false);
                 let kv: Bitcask = make_config(&dir, &cfgv).open().expect("open");
@@ -445,6 +484,11 @@ fn close_mode(inputs: &[Value], si: usize, sn: usize, out: &mut TraceOut, pend: 
                     parked = wait_parked(Duration::from_secs(3));
                 }
                 ev["parked"] = json!(parked);
+                // (wait_ms: the store stays open for a while first, so that the background tasks have been through
+                // their checks - whatever they do when there is nothing to do - before the drop)
+                if let Some(w) = inp["wait_ms"].as_u64() {
+                    std::thread::sleep(Duration::from_millis(w));
+                }
                 let _ = shim::take_calls();
                 // nothing that was not already in flight at the drop may change the directory afterwards
                 let before_drop = snapshot(&dir);
@@ -507,7 +551,7 @@ fn close_mode(inputs: &[Value], si: usize, sn: usize, out: &mut TraceOut, pend: 
                         let h = kv.get_handle();
                         let _ = h.set(Bytes::from(format!("k{}", c % 4)), Bytes::from(format!("v{c}")));
                         let _ = h.get(Bytes::from(format!("k{}", c % 4)));
-                        std::thread::sleep(Duration::from_millis(3));
+                        std::thread::sleep(Duration::from_millis(inp["hold_ms"].as_u64().unwrap_or(3)));
                     }
                     drop(kv);
                     if c == 0 {
@@ -560,7 +604,7 @@ fn bg_mode(inputs: &[Value], si: usize, sn: usize, out: &mut TraceOut, pend: &Pe
         pend.set(&json!({"ev": "bg", "input": inp, "phase": "run"}));
         let sc = Scratch::new("bg");
         let dir = sc.path().to_path_buf();
-        wait_until(|| bg_threads() == 0, Duration::from_secs(5));
+        quiesce();
         reset_clock();
         disarm();
         let interval = inp["interval_ms"].as_u64().unwrap_or(200);
@@ -903,6 +947,72 @@ fn conc_mode(inputs: &[Value], seed: u64, si: usize, sn: usize, out: &mut TraceO
                 }
                 out.emit(&json!({"ev": "conc", "kind": kind, "input": inp, "failed": failed, "left": left, "after": after}));
                 shim::stop();
+                drop(kv);
+            }
+            // Every reader of the pool is held by a get (parked right after it took its reader), more gets are
+            // waiting for a reader, then all holders return their readers at the same moment: every get must
+            // complete (a waiter that is not woken although readers are idle waits forever), round after round.
+            "pool-contention" => {
+                let pool = inp["pool"].as_u64().unwrap_or(2) as usize;
+                let waiters = inp["waiters"].as_u64().unwrap_or(pool as u64) as usize;
+                let rounds = inp["rounds"].as_u64().unwrap_or(10) as usize;
+                let cfg = json!({"concurrency": pool, "max_file_size": 1_000_000});
+                let kv = make_config(&dir, &cfg).open().expect("open");
+                let h = kv.get_handle();
+                for j in 0..4 {
+                    let _ = h.set(Bytes::from(format!("k{j}")), Bytes::from(format!("value{j}")));
+                }
+                let (mut stuck, mut wrong, mut held_all) = (0usize, 0usize, 0usize);
+                let mut first_bad = String::new();
+                for round in 0..rounds {
+                    multi_arm("get.popped", pool);
+                    let mut ths = vec![];
+                    for t in 0..pool {
+                        let (h2, kb) = (h.clone(), format!("k{}", t % 4).into_bytes());
+                        ths.push((t % 4, std::thread::spawn(move || get_res(&h2, &kb))));
+                    }
+                    let all_held = multi_wait(pool, Duration::from_secs(3));
+                    held_all += all_held as usize;
+                    for t in 0..waiters {
+                        let (h2, kb) = (h.clone(), format!("k{}", (t + 1) % 4).into_bytes());
+                        ths.push(((t + 1) % 4, std::thread::spawn(move || get_res(&h2, &kb))));
+                    }
+                    // let the waiters reach their wait
+                    std::thread::sleep(Duration::from_millis(if round % 2 == 0 { 20 } else { 2 }));
+                    multi_release();
+                    let deadline = Instant::now() + Duration::from_secs(4);
+                    for (j, t) in ths {
+                        while !t.is_finished() && Instant::now() < deadline {
+                            std::thread::sleep(Duration::from_millis(1));
+                        }
+                        if !t.is_finished() {
+                            stuck += 1;
+                            if first_bad.is_empty() {
+                                first_bad = format!("round {round}: a get of k{j} never returned");
+                            }
+                            continue; // the thread is left behind
+                        }
+                        let r = t.join().unwrap_or_else(|_| "panic".into());
+                        if r != format!("value{j}") {
+                            wrong += 1;
+                            if first_bad.is_empty() {
+                                first_bad = format!("round {round}: get k{j} -> {r}");
+                            }
+                        }
+                    }
+                    if stuck > 0 {
+                        break;
+                    }
+                }
+                out.emit(&json!({"ev": "conc", "kind": kind, "input": inp, "rounds": rounds, "rounds_with_all_readers_held": held_all,
+                                 "stuck": stuck, "wrong": wrong, "first_bad": first_bad}));
+                if stuck > 0 {
+                    // threads of this scenario are stuck inside the store: do not reuse the process
+                    std::mem::forget(kv);
+                    disarm();
+                    pend.clear();
+                    return n + 1;
+                }
                 drop(kv);
             }
             "forced-merge-vs-get" => {
@@ -1350,6 +1460,8 @@ fn main() {
             }
         });
     }
+    std::thread::sleep(Duration::from_millis(20));
+    BASE_THREADS.store(all_threads() as u64, Ordering::SeqCst);
     let n = match args[1].as_str() {
         "close" => close_mode(&inputs, si, sn, &mut out, &pend),
         "bg" => bg_mode(&inputs, si, sn, &mut out, &pend),
